@@ -92,7 +92,7 @@ func vIsUnderscoreUUID(id string) bool
 func vFormatUTC(layout string, ns int64) string
 
 func vEncodeDoc(name string, root *etree.Element, mode int) string
-func vEncryptTree(name string, inner *etree.Element, key []byte) string
+func vEncryptTree(name string, inner *etree.Element, key []byte, compressed bool) string
 func vValidateCtxOK(sp *SAMLServiceProvider) bool
 func vValidateCalls() int
 func vCertRejections() int
